@@ -122,6 +122,59 @@ def random_sessions(rng, n, max_ann, max_off):
     return out
 
 
+def dynamic_sessions(rng, n):
+    """the type tree grows *during* the history: query, create a type below a proper descendant, add, query"""
+    out = []
+    for _ in range(n):
+        sb = SB()
+        ts = sb.ts_new()
+        parent = {}
+        order = []
+
+        def sub(T):
+            res = {T}
+            ch = True
+            while ch:
+                ch = False
+                for c, p_ in parent.items():
+                    if p_ in res and c not in res:
+                        res.add(c); ch = True
+            return res
+
+        def mk(name, sup):
+            sb.create_type(ts, name, sup)
+            parent[name] = sup
+            order.append(name)
+
+        mk("d.T0", "uima.tcas.Annotation")
+        h0 = sb.cas_new(ts, text="x" * 40)
+        shadow = []
+        qmeta = []
+        for step in range(rng.randint(6, 14)):
+            r = rng.random()
+            if r < 0.3:
+                mk("d.T%d" % len(order), rng.choice(order))
+            elif r < 0.6:
+                t = rng.choice(order)
+                b = rng.randint(0, 20); e = rng.randint(b, 30)
+                l = sb.fs_new(ts, t, {"begin": b, "end": e})
+                sb.op(op="cas.add", h=h0, fs=l)
+                shadow.append((l, b, e, t))
+            else:
+                T = rng.choice(order[:2] + ["uima.tcas.Annotation"])
+                qb = rng.randint(0, 10); qe = rng.randint(qb, 30)
+                kind = rng.choice(["covered", "covering"])
+                i = sb.op(op="cas.select_" + kind, h=h0, type=T, by=rng.choice(["name", "object"]), b=qb, e=qe)
+                st = sub(T) if T != "uima.tcas.Annotation" else set(order) | {T}
+                if kind == "covered":
+                    exp = [l for (l, b, e, t) in shadow if t in st and qb <= b and e <= qe]
+                else:
+                    exp = [l for (l, b, e, t) in shadow if t in st and b <= qb and qe <= e]
+                qmeta.append((i, sorted(exp), len(shadow)))
+        out.append((sb.ops, qmeta))
+    return out
+
+
 def evaluate(ctx, out, sess, tag):
     ops_list = [s[0] for s in sess]
     impl = sessions.run_impl_sessions(ops_list)
@@ -156,7 +209,7 @@ def evaluate(ctx, out, sess, tag):
 
 def run(ctx, out, budget):
     out.rule = ("sessions = type tree P>C>D, U; annotations in two views; queries select_covered/select_covering by "
-                "type object / full name / short name. Non-trivial = distinct (session, query) whose expected result "
+                "type object / full name / short name; a stream in which the type tree grows between queries. Non-trivial = distinct (session, query) whose expected result "
                 "is a non-empty strict subset of the view's annotations.")
     if budget in ("quick", "thorough", "search"):
         ex = exhaustive_sessions()
@@ -165,6 +218,7 @@ def run(ctx, out, budget):
         out.exhaustive_scope = ("all multisets of <=3 spans over offsets 0..3 (incl. zero-width, duplicates) x 3 type "
                                 "assignments x all 10 query spans x {covered, covering}; exhaustive for that sub-space only")
     rng = ctx.rng(1)
+    evaluate(ctx, out, dynamic_sessions(ctx.rng(2), 150 if budget == "quick" else 2000), "dyn")
     if budget == "quick":
         evaluate(ctx, out, random_sessions(rng, 120, 40, 30), "rnd")
     else:
